@@ -22,6 +22,7 @@ type Case struct {
 	Pipeline bool            `json:"pipeline,omitempty"` // commands pipelined behind the startup packet
 	Params   [][2]string     `json:"params,omitempty"`
 	FailErr  *script.ErrSpec `json:"fail_err,omitempty"`
+	OptSeed  int             `json:"opt_seed,omitempty"` // order in which the options are applied (middlewares keep theirs)
 }
 
 func table() script.Table {
@@ -48,7 +49,7 @@ func Run(c Case) core.Result {
 	}
 	res.NonTrivial = (c.NMW >= 2 && len(c.Cmds) >= 2) || (c.FailAt >= 0 && c.Pipeline && len(c.Cmds) > 0) || c.End == "terminate+more"
 
-	cfg := script.Config{Table: table(), SetLimit: true, Limit: 1 << 14}
+	cfg := script.Config{Table: table(), SetLimit: true, Limit: 1 << 14, OptSeed: c.OptSeed}
 	for i := 0; i < c.NMW; i++ {
 		mw := script.MW{}
 		if i == c.FailAt {
